@@ -549,11 +549,15 @@ class DescDomain(BaseDomain):
         conjugate in any spelling) of the other -> the Hermitian flag of the descriptor."""
         if isinstance(a, ArrDesc) and isinstance(b, ArrDesc):
             _bshape(a.shape, b.shape)     # incompatible shapes: numpy raises
+            if a.size == 0 and b.size == 0:
+                return True                   # allclose of two empty arrays (triu_indices(1, 1) ...) is vacuously True
             if a.root() is b.root() and a.sel == b.sel:
                 dc, dt = a.conj ^ b.conj, a.tr ^ b.tr
                 if not dc and not dt:
                     return True
                 r = a.root()
+                if a.sel is not None and self._sel_support(a.sel, r) == 0:
+                    return True               # masked comparison whose mask selects nothing (np.triu(A, 1) of a 1x1)
                 if r.generic:
                     # generic entries, "non-Hermitian by a margin": no accidental symmetry of any kind
                     return False
@@ -567,6 +571,21 @@ class DescDomain(BaseDomain):
                     if part == "diag" and r.diag_real is not None:
                         return bool(r.diag_real)
         return Unk("np.allclose")
+
+    @staticmethod
+    def _sel_support(sel, r):
+        """Number of entries of the square root descriptor r that the index subset selects (None: unknown)."""
+        if r.ndim != 2 or r.shape[0] != r.shape[1]:
+            return None
+        kind, k = sel
+        n = r.shape[0]
+        if kind == "triu":
+            return len(_np.triu_indices(n, k)[0])
+        if kind == "tril":
+            return len(_np.tril_indices(n, k)[0])
+        if kind == "diag":
+            return n
+        return None
 
     @staticmethod
     def _herm_part(sel):
